@@ -35,6 +35,7 @@ type op struct {
 	K  string `json:"k"`
 	C  int    `json:"c"`
 	L  string `json:"l"`
+	W  []int  `json:"w"` // create: sizes of the successive Write calls
 }
 
 type actorSpec struct {
@@ -150,7 +151,11 @@ func (r *runner) execute(mode string, seed int64, pick picker) (ex execution) {
 	record := func(actor string, o op, run func() (string, []int, []string)) {
 		nextId++
 		id := nextId
-		ev := hevent{E: "call", Id: id, A: actor, Op: o.Op, T: o.T, K: o.K, C: o.C, L: o.L, Vs: []int{}, Ks: []string{}}
+		hop := o.Op
+		if hop == "create" {
+			hop = "set" // for the promise a Create+Write*+Close is a Set of the concatenation
+		}
+		ev := hevent{E: "call", Id: id, A: actor, Op: hop, T: o.T, K: o.K, C: o.C, L: o.L, Vs: []int{}, Ks: []string{}}
 		if s != nil {
 			s.Record(actor, "call", ev)
 		}
@@ -190,6 +195,43 @@ func (r *runner) execute(mode string, seed int64, pick picker) (ex execution) {
 				return drv.Class(err), nil, nil
 			case "set":
 				return drv.Class(store(o.T).Set(ctx, r.m.Key(o.K), r.bytesOf(o.C))), nil, nil
+			case "create":
+				total := 0
+				for _, n := range o.W {
+					total += n
+				}
+				b := make([]byte, total)
+				for i := range b {
+					b[i] = byte(i*31 + o.C)
+				}
+				for i := 0; i < 8 && i < len(b); i++ {
+					b[i] = byte(uint64(o.C) >> (8 * i))
+				}
+				r.mu.Lock()
+				r.content[string(b)] = []int{o.C}
+				r.mu.Unlock()
+				f, err := store(o.T).Create(ctx, r.m.Key(o.K))
+				if err != nil {
+					return drv.Class(err), nil, nil
+				}
+				var wErr error
+				off := 0
+				buf := make([]byte, 0, 70000)
+				for _, n := range o.W {
+					buf = append(buf[:0], b[off:off+n]...)
+					off += n
+					if _, wErr = f.Write(buf); wErr != nil {
+						break
+					}
+					for i := range buf {
+						buf[i] = 0xee
+					}
+				}
+				cErr := f.Close()
+				if wErr != nil {
+					return drv.Class(wErr), nil, nil
+				}
+				return drv.Class(cErr), nil, nil
 			case "del":
 				return drv.Class(store(o.T).Delete(ctx, r.m.Key(o.K))), nil, nil
 			case "get":
